@@ -57,13 +57,11 @@ class Sym(Model):
         return self._bin("+", o)
 
     __radd__ = __add__
-    __iadd__ = __add__
 
     def __mul__(self, o):
         return self._bin("*", o)
 
     __rmul__ = __mul__
-    __imul__ = __mul__
 
     def __sub__(self, o):
         return self._bin("-", o)
@@ -74,7 +72,6 @@ class Sym(Model):
     def __truediv__(self, o):
         return self._bin("/", o)
 
-    __itruediv__ = __truediv__
 
     def __rtruediv__(self, o):
         return self._bin("/", o, True)
@@ -276,14 +273,12 @@ class Stack(Model):
         return self._map(lambda e: e * o)
 
     __rmul__ = __mul__
-    __imul__ = __mul__
 
     def __truediv__(self, o):
         if isinstance(o, Stack) and len(o) == len(self):
             return Stack([a / b for a, b in zip(self.elems, o.elems)])
         return self._map(lambda e: e / o)
 
-    __itruediv__ = __truediv__
 
     @property
     def T(self):
